@@ -94,7 +94,15 @@ def reference_families(rng, count):
     out = []
     n = lambda a, b: gd.fnum(round(rng.uniform(a, b), 1))
     for fi in range(count):
-        kind = ("clip_chain", "gradient_template", "use_in_clip")[fi % 3]
+        kind = ("clip_chain", "gradient_template", "use_in_clip", "sizes_without_viewbox")[fi % 4]
+        if kind == "sizes_without_viewbox":
+            # stroked round-capped documents that have no viewBox and differ in width / height only: whatever is
+            # derived from the document size and remembered under a key that ignores it shows here
+            x1, y1, x2, y2, sw = n(2, 8), n(2, 8), n(10, 18), n(10, 18), n(1, 3)
+            for size in rng.sample((20, 200, 2000, 64), rng.randint(2, 3)):
+                out.append(f'<svg xmlns="http://www.w3.org/2000/svg" width="{size}" height="{size}"><line x1="{x1}" y1="{y1}" x2="{x2}" y2="{y2}" '
+                           f'stroke="black" stroke-width="{sw}" stroke-linecap="round" stroke-linejoin="round"/></svg>')
+            continue
         tf = rng.choice(("", ' transform="translate(5 3)"', ' transform="rotate(10)"'))
         shape = f'<rect x="{n(5, 20)}" y="{n(5, 20)}" width="{n(50, 70)}" height="{n(50, 70)}" fill="{rng.choice(gd.PALETTE)}"'
         outer = f'<circle cx="{n(35, 55)}" cy="{n(35, 55)}" r="{n(25, 35)}"/>'
@@ -141,7 +149,7 @@ def doc_pool(seed, tier):
     for path in files[: (25 if tier == "quick" else 120)]:
         pool.append((open(path).read(), 3, False, False))
     pool.current = "family"
-    for text in reference_families(rng, 9 if tier == "quick" else 45):
+    for text in reference_families(rng, 12 if tier == "quick" else 48):
         pool.append((text, 3, False, False))
     n = 60 if tier == "quick" else 500
     for i in range(n):
